@@ -92,7 +92,181 @@ def front(arg: dict) -> dict:
         out["gs"] = err
         return out
     out["gs"] = [_sgraph(g, special) for g in grapher.get_graphs()]
+    # seventh to ninth rewriting phase: build_switch_fallthroughs (the set of labels it marks is an ORACLE of the model, read off
+    # the graphs before / after), build_loops (the successful loop constructions are an ORACLE, recorded from outside),
+    # remove_label_markers (deterministic, modelled without an oracle)
+    before = [_lgraph(g, special) for g in grapher.get_graphs()]
+    err = run_guarded(grapher, "build_switch_fallthroughs")
+    if err:
+        out["ft_marked"] = [[] for _ in before]
+        out["fl"] = err
+        return out
+    out["fl"] = [_lgraph(g, special) for g in grapher.get_graphs()]
+    # (a label that is marked twice appears twice; the count itself is read by nothing: dumped as the flag "ft")
+    out["ft_marked"] = [[i for i, (x, y) in enumerate(zip(b["vs"], a["vs"])) for _ in range(y["ftn"] - x["ftn"])] for b, a in zip(before, out["fl"])]
+    _strip_ftn(out["fl"])
+    lp_records, err = loops_recorded(grapher)
+    out["lp_records"] = lp_records
+    if err:
+        out["bl"] = err
+        return out
+    out["bl"] = _strip_ftn([_lgraph(g, special) for g in grapher.get_graphs()])
+    err = run_guarded(grapher, "remove_label_markers")
+    if err:
+        out["rl"] = err
+        return out
+    out["rl"] = _strip_ftn([_lgraph(g, special) for g in grapher.get_graphs()])
     return out
+
+
+def _strip_ftn(gs: list) -> list:
+    for g in gs:
+        for v in g["vs"]:
+            v.pop("ftn", None)
+    return gs
+
+
+def _lgraph(g: Any, special: Any) -> dict:
+    """a graph from build_switch_fallthroughs on: _sgraph plus, per vertex, "ft" (a SwitchFalltrough marker; "ftn" how many),
+    "fs" / "fe" (ForeverStart id / ForeverEnd ids), "fb" / "fc" (ForeverBreak / ForeverContinue id of a label jump), "fw"
+    (force_write of a label), "syn" (a vertex build_loops inserted: SsbLabelJump(root, None) with a ForeverBreak / ForeverContinue
+    marker - dumped as its root: kind "op", "label" or "foreign")"""
+    vs = []
+    for v in g.vs:
+        op = v["op"]
+        extra = {"ft": False, "ftn": 0, "fs": None, "fe": [], "fb": None, "fc": None, "fw": False, "syn": False}
+        if isinstance(op, special.SsbLabelJump) and op.label is None and len(op.markers) == 1 and isinstance(op.markers[0], (special.ForeverBreak, special.ForeverContinue)):
+            r = op.maybe_root
+            if r is None:
+                d = {"k": "?rootless"}
+            elif isinstance(r, special.SsbLabelJump):
+                d = {"k": "?nested"}
+            else:
+                d = _item(r, special)
+                if op.op_code.name != f"ES_JUMP<{r.op_code.name}>" or op.offset != r.offset:
+                    d = {"k": "?opname " + op.op_code.name}
+            d.update({"n": _vname(v), "ifs": None, "ife": [], "mops": [], "not": False, "multi": False, "sws": None, "swe": []})
+            extra["syn"] = True
+            extra["fb" if isinstance(op.markers[0], special.ForeverBreak) else "fc"] = op.markers[0].loop_id
+            if v["name"] is not None:
+                d["n"] = "?named " + str(v["name"])
+        elif isinstance(op, special.SsbLabelJump) and op.label is None:
+            d = _sgraph_vertex(v, special)
+        elif isinstance(op, special.SsbLabel):
+            known = (special.IfEnd, special.SwitchEnd, special.SwitchFalltrough, special.ForeverStart, special.ForeverEnd)
+            keep = [m for m in op.markers if isinstance(m, special.IfEnd) or not isinstance(m, known)]
+            d = _bvertex(v, special, markers=keep)
+            d["sws"] = None
+            d["swe"] = [m.switch_id for m in op.markers if isinstance(m, special.SwitchEnd)]
+            extra["ftn"] = sum(1 for m in op.markers if isinstance(m, special.SwitchFalltrough))
+            extra["ft"] = extra["ftn"] > 0
+            fs = [m.loop_id for m in op.markers if isinstance(m, special.ForeverStart)]
+            extra["fs"] = fs[0] if len(fs) == 1 else (None if not fs else "?" + str(fs))
+            extra["fe"] = [m.loop_id for m in op.markers if isinstance(m, special.ForeverEnd)]
+            extra["fw"] = bool(op.force_write)
+        elif isinstance(op, special.SsbLabelJump):
+            # a label jump: at most one marker of the loop kinds (add_marker refuses a second marker)
+            loopm = [m for m in op.markers if isinstance(m, (special.ForeverBreak, special.ForeverContinue, special.ForeverStart, special.ForeverEnd))]
+            saved = op.markers
+            op.markers = [m for m in saved if m not in loopm]
+            try:
+                d = _bvertex(v, special)
+            finally:
+                op.markers = saved
+            d["sws"] = None
+            d["swe"] = []
+            for m in loopm:
+                if isinstance(m, special.ForeverBreak):
+                    extra["fb"] = m.loop_id if extra["fb"] is None else "?twice"
+                elif isinstance(m, special.ForeverContinue):
+                    extra["fc"] = m.loop_id if extra["fc"] is None else "?twice"
+                elif isinstance(m, special.ForeverStart):
+                    extra["fs"] = m.loop_id if extra["fs"] is None else "?twice"
+                else:
+                    extra["fe"].append(m.loop_id)
+        else:
+            d = _bvertex(v, special)
+            d["sws"] = None
+            d["swe"] = []
+        d.update(extra)
+        vs.append(d)
+    return {"vs": vs, "es": _sgraph_edges(g)}
+
+
+def loops_recorded(grapher: Any) -> tuple[list, dict]:
+    """runs the real build_loops(); its DECISION part (where a loop is built, with which break / continue edges) is an ORACLE of
+    the model: recorded per graph from outside, as the list of SUCCESSFUL constructions [v, break edge ids, continue edge ids] in
+    the order the code uses them - the return value of _build_loops__try_loop counts when it says True and every following
+    is_reachable_when_removing (one per edge) says False.  Returns (records per graph, {} or {"error": class[, "decision": k]});
+    "decision": the exception left the decision part while graph k was processed (no rewriting was going on: a rewriting starts
+    when a construction is accepted and ends with its g.delete_vertices(...); the graph in work is known from g.bfsiter)."""
+    from explorerscript.ssb_converting.decompiler.graph_building import graph_minimizer as gm
+    graphs = list(grapher.get_graphs())
+    records: list[list] = [[] for _ in graphs]
+    st: dict = {"pending": None, "left": 0, "rewriting": False, "graph": None}
+    orig_try = gm.SsbGraphMinimizer._build_loops__try_loop
+    orig_reach = gm.is_reachable_when_removing
+
+    def commit() -> None:
+        k, rec = st["pending"]
+        records[k].append(rec)
+        st["pending"] = None
+        st["rewriting"] = True
+
+    def try_loop(self: Any, start: Any) -> Any:
+        st["pending"] = None
+        res = orig_try(self, start)
+        can, bps, cps = res
+        if can:
+            k = next(i for i, gg in enumerate(graphs) if gg is start.graph)
+            st["pending"] = (k, [start.index, [e.index for e in bps], [e.index for e in cps]])
+            st["left"] = len(bps) + len(cps)
+            if st["left"] == 0:
+                commit()
+        return res
+
+    def reach(g: Any, *a: Any, **kw: Any) -> Any:
+        r = orig_reach(g, *a, **kw)
+        if st["pending"] is not None:
+            if r:
+                st["pending"] = None
+            else:
+                st["left"] -= 1
+                if st["left"] == 0:
+                    commit()
+        return r
+
+    def patch(k: int, g: Any) -> None:
+        obfs, odel = g.bfsiter, g.delete_vertices
+
+        def bfsiter(*a: Any, **kw: Any) -> Any:
+            st["graph"] = k
+            return obfs(*a, **kw)
+
+        def delete_vertices(*a: Any, **kw: Any) -> Any:
+            r = odel(*a, **kw)
+            st["rewriting"] = False
+            return r
+
+        g.bfsiter, g.delete_vertices = bfsiter, delete_vertices
+
+    gm.SsbGraphMinimizer._build_loops__try_loop = try_loop
+    gm.is_reachable_when_removing = reach
+    for k, g in enumerate(graphs):
+        patch(k, g)
+    try:
+        grapher.build_loops()
+    except BaseException as e:  # noqa
+        r: dict = {"error": type(e).__name__}
+        if not st["rewriting"] and st["graph"] is not None:
+            r["decision"] = st["graph"]
+        return records, r
+    finally:
+        gm.SsbGraphMinimizer._build_loops__try_loop = orig_try
+        gm.is_reachable_when_removing = orig_reach
+        for g in graphs:
+            del g.bfsiter, g.delete_vertices
+    return records, {}
 
 
 class Hang(Exception):
@@ -171,39 +345,44 @@ def _mop(o: Any) -> dict:
     return {"off": o.offset, "name": o.op_code.name, "params": [rsjson.param_to_json(p) for p in o.params]}
 
 
-def _sgraph(g: Any, special: Any) -> dict:
-    """a graph from build_and_group_switch_cases on: _bgraph plus the switch markers ("sws": SwitchStart id of a wrapped switch
-    op - dumped as kind "op" -, "swe": SwitchEnd ids of a label) and the switch_ops of every edge as sixth entry"""
-    vs = []
-    for v in g.vs:
-        op = v["op"]
-        if isinstance(op, special.SsbLabelJump) and op.label is None:
-            # SsbLabelJump(op, None): a switch op wrapped by build_and_group_switch_cases
-            r = op.maybe_root
-            d = dict({"k": "op"}, **_mop(r)) if r is not None else {"k": "?rootless"}
-            d.update({"n": _vname(v), "ifs": None, "ife": [], "mops": [], "not": False, "multi": False, "swe": []})
-            ms = op.markers
-            d["sws"] = ms[0].switch_id if len(ms) == 1 and isinstance(ms[0], special.SwitchStart) else "?" + ",".join(type(m).__name__ for m in ms)
-            if r is not None and op.op_code.name != f"ES_JUMP<{r.op_code.name}>":
-                d["sws"] = "?opname " + op.op_code.name
+def _sgraph_vertex(v: Any, special: Any) -> dict:
+    op = v["op"]
+    if isinstance(op, special.SsbLabelJump) and op.label is None:
+        # SsbLabelJump(op, None): a switch op wrapped by build_and_group_switch_cases
+        r = op.maybe_root
+        d = dict({"k": "op"}, **_mop(r)) if r is not None else {"k": "?rootless"}
+        d.update({"n": _vname(v), "ifs": None, "ife": [], "mops": [], "not": False, "multi": False, "swe": []})
+        ms = op.markers
+        d["sws"] = ms[0].switch_id if len(ms) == 1 and isinstance(ms[0], special.SwitchStart) else "?" + ",".join(type(m).__name__ for m in ms)
+        if r is not None and op.op_code.name != f"ES_JUMP<{r.op_code.name}>":
+            d["sws"] = "?opname " + op.op_code.name
+    else:
+        swe = []
+        if isinstance(op, special.SsbLabel):
+            # IfEnd and SwitchEnd markers are dumped as two lists (their interleaving is read by no modelled pass)
+            keep = [m for m in op.markers if not isinstance(m, special.SwitchEnd)]
+            swe = [m.switch_id for m in op.markers if isinstance(m, special.SwitchEnd)]
+            d = _bvertex(v, special, markers=keep)
         else:
-            swe = []
-            if isinstance(op, special.SsbLabel):
-                # IfEnd and SwitchEnd markers are dumped as two lists (their interleaving is read by no modelled pass)
-                keep = [m for m in op.markers if not isinstance(m, special.SwitchEnd)]
-                swe = [m.switch_id for m in op.markers if isinstance(m, special.SwitchEnd)]
-                d = _bvertex(v, special, markers=keep)
-            else:
-                d = _bvertex(v, special)
-            d["sws"] = None
-            d["swe"] = swe
-        vs.append(d)
+            d = _bvertex(v, special)
+        d["sws"] = None
+        d["swe"] = swe
+    return d
+
+
+def _sgraph_edges(g: Any) -> list:
     es = []
     for e in g.es:
         so = e["switch_ops"]
         es.append([e.source, e.target, e["flow_level"], bool(e["loop"]), bool(e["is_else"]),
                    "?empty" if so == [] else [[o.switch_index, o.index, _mop(o.op)] for o in (so or [])]])
-    return {"vs": vs, "es": es}
+    return es
+
+
+def _sgraph(g: Any, special: Any) -> dict:
+    """a graph from build_and_group_switch_cases on: _bgraph plus the switch markers ("sws": SwitchStart id of a wrapped switch
+    op - dumped as kind "op" -, "swe": SwitchEnd ids of a label) and the switch_ops of every edge as sixth entry"""
+    return {"vs": [_sgraph_vertex(v, special) for v in g.vs], "es": _sgraph_edges(g)}
 
 
 def search_recorded(grapher: Any, phase: str) -> tuple[list, dict]:
@@ -332,12 +511,29 @@ def _op_from_item(d: dict, special: Any, dt: Any) -> Any:
     def plain() -> Any:
         return dt.SsbOperation(d["off"], dt.SsbOpCode(-1, d["name"]), [rsjson.param_from_json(p) for p in d["params"]])
     k = d["k"]
+    if d.get("syn"):
+        # a vertex inserted by build_loops: SsbLabelJump(root, None) with a ForeverBreak / ForeverContinue marker
+        root = special.SsbLabel(d["id"], 0) if k == "label" else (special.SsbForeignLabel(special.SsbLabel(d["id"], 1)) if k == "foreign" else plain())
+        op = special.SsbLabelJump(root, None)
+        if d.get("fb") is not None:
+            op.markers.append(special.ForeverBreak(d["fb"]))
+        if d.get("fc") is not None:
+            op.markers.append(special.ForeverContinue(d["fc"]))
+        return op
     if k == "label":
         op = special.SsbLabel(d["id"], 0)
         for i in d.get("ife") or []:
             op.add_marker(special.IfEnd(i))
         for i in d.get("swe") or []:
             op.add_marker(special.SwitchEnd(i))
+        if d.get("ft"):
+            op.add_marker(special.SwitchFalltrough())
+        if d.get("fs") is not None:
+            op.add_marker(special.ForeverStart(d["fs"]))
+        for i in d.get("fe") or []:
+            op.add_marker(special.ForeverEnd(i))
+        op.force_write = bool(d.get("fw"))
+        op.referenced_from_other_routine = bool(d.get("ref"))
         return op
     if k == "foreign":
         return special.SsbForeignLabel(special.SsbLabel(d["id"], 1))
@@ -354,6 +550,14 @@ def _op_from_item(d: dict, special: Any, dt: Any) -> Any:
                 m = special.IfStart(d["ifs"])
             m.is_not = bool(d.get("not"))
             op.markers.append(m)
+        if d.get("fb") is not None:
+            op.markers.append(special.ForeverBreak(d["fb"]))
+        if d.get("fc") is not None:
+            op.markers.append(special.ForeverContinue(d["fc"]))
+        if d.get("fs") is not None:
+            op.markers.append(special.ForeverStart(d["fs"]))
+        for i in d.get("fe") or []:
+            op.markers.append(special.ForeverEnd(i))
         return op
     if d.get("sws") is not None:
         # a switch op already wrapped by build_and_group_switch_cases: SsbLabelJump(op, None) with a SwitchStart marker
@@ -370,8 +574,10 @@ def _hand_built(arg_g: dict) -> tuple[Any, Any, Any]:
     from explorerscript.ssb_converting.decompiler.graph_building import graph_minimizer as gm
     g = Graph(directed=True)
     for i, v in enumerate(arg_g["vs"]):
-        name = f"v{v['n']}" if v.get("n") is not None else f"FLR<from{i}>"
+        name = f"v{v['n']}" if v.get("n") is not None else (None if v.get("syn") else f"FLR<from{i}>")
         vx = g.add_vertex(name, label=None, op=_op_from_item(v, special, dt), style="solid", shape="ellipse")
+        if name is None:
+            vx["name"] = None        # (the attribute must exist even when the first vertex is an inserted one)
         gm.SsbGraphMinimizer._update_vertex_style(vx)
     for ed in arg_g["es"]:
         s, t, lv, loop, is_else = ed[:5]
@@ -498,3 +704,101 @@ def branches_on_graph(arg: dict) -> dict:
 
 def branches_on_graphs(args: list[dict]) -> list[dict]:
     return [branches_on_graph(a) for a in args]
+
+
+class OracleStartMarked(Exception):
+    pass
+
+
+def loops_on_graph(arg: dict) -> dict:
+    """graph-level tie of build_switch_fallthroughs / build_loops / remove_label_markers: the REAL pass on a hand-built igraph graph.
+    arg: {"g": lgraph json (labels may carry "ref": referenced_from_other_routine), "pass": "fall" | "loops" | "remove",
+          "forced": null | {"seed": n}} -> lgraph json | {"error": class[, "decision": 0]}, plus the recorded oracle
+    ("ft_marked" / "lp_records").  "forced" (build_loops only): the DECISION part is replaced by a seeded policy - whenever the
+    outer loop asks `_build_loops__try_loop` (a vertex with a loop in-edge and no marker), the policy accepts with probability 1/2
+    and names continue edges (mostly the loop in-edges of the vertex) and break edges (any edges) of the graph as it is then;
+    `is_reachable_when_removing` says False - so that the REWRITING part meets sources / targets real decisions never choose."""
+    from explorerscript.ssb_converting.decompiler.graph_building import graph_minimizer as gm
+    g, grapher, special = _hand_built(arg["g"])
+    ps = arg["pass"]
+    if ps == "fall":
+        before = _lgraph(g, special)
+        if arg.get("forced"):
+            # (on its own the pass never marks anything: the path it hands to has_unclosed_blocks starts at the switch vertex, whose
+            # SwitchStart counts as an unclosed block; with that decision replaced the marking code is reached)
+            orig_hub = gm.has_unclosed_blocks
+            gm.has_unclosed_blocks = lambda *a, **kw: False
+            try:
+                err = run_guarded(grapher, "build_switch_fallthroughs")
+            finally:
+                gm.has_unclosed_blocks = orig_hub
+        else:
+            err = run_guarded(grapher, "build_switch_fallthroughs")
+        if err:
+            return dict(err, ft_marked=[])
+        after = _lgraph(g, special)
+        marked = [i for i, (x, y) in enumerate(zip(before["vs"], after["vs"])) for _ in range(y["ftn"] - x["ftn"])]
+        return dict(_strip_ftn([after])[0], ft_marked=marked)
+    if ps == "remove":
+        err = run_guarded(grapher, "remove_label_markers")
+        return err if err else _strip_ftn([_lgraph(g, special)])[0]
+    forced = arg.get("forced")
+    witness = arg.get("witness")
+    if witness:
+        # the decision part replaced by a given list of constructions (the witnesses of the Lean theorems)
+        todo = [list(r) for r in witness["records"]]
+        orig_try = gm.SsbGraphMinimizer._build_loops__try_loop
+        orig_reach = gm.is_reachable_when_removing
+
+        def try_given(self: Any, start: Any) -> Any:
+            if todo and todo[0][0] == start.index:
+                _v0, bs, cs = todo.pop(0)
+                return True, [start.graph.es[i] for i in bs], [start.graph.es[i] for i in cs]
+            return False, None, None
+
+        gm.SsbGraphMinimizer._build_loops__try_loop = try_given
+        gm.is_reachable_when_removing = lambda *a, **kw: False
+        try:
+            records, err = loops_recorded(grapher)
+        finally:
+            gm.SsbGraphMinimizer._build_loops__try_loop = orig_try
+            gm.is_reachable_when_removing = orig_reach
+    elif forced:
+        rnd = random.Random(forced["seed"])
+        budget = {"n": 4}
+        orig_try = gm.SsbGraphMinimizer._build_loops__try_loop
+        orig_reach = gm.is_reachable_when_removing
+
+        def try_loop(self: Any, start: Any) -> Any:
+            gg = start.graph
+            if budget["n"] <= 0 or rnd.random() < 0.5 or gg.ecount() == 0:
+                return False, None, None
+            budget["n"] -= 1
+            conts = [e for e in start.in_edges() if e["loop"]]
+            if rnd.random() < 0.25:
+                conts = [gg.es[rnd.randrange(gg.ecount())] for _ in range(rnd.randint(0, 2))]
+            r = rnd.random()
+            nb = 0 if r < 0.15 else (1 if r < 0.6 else rnd.randint(2, 3))
+            brs = []
+            for _ in range(nb):
+                e = gg.es[rnd.randrange(gg.ecount())]
+                if all(e.index != x.index for x in conts + brs) or rnd.random() < 0.05:
+                    brs.append(e)
+            return True, brs, conts
+
+        gm.SsbGraphMinimizer._build_loops__try_loop = try_loop
+        gm.is_reachable_when_removing = lambda *a, **kw: False
+        try:
+            records, err = loops_recorded(grapher)
+        finally:
+            gm.SsbGraphMinimizer._build_loops__try_loop = orig_try
+            gm.is_reachable_when_removing = orig_reach
+    else:
+        records, err = loops_recorded(grapher)
+    if err:
+        return dict(err, lp_records=records[0])
+    return dict(_strip_ftn([_lgraph(g, special)])[0], lp_records=records[0])
+
+
+def loops_on_graphs(args: list[dict]) -> list[dict]:
+    return [loops_on_graph(a) for a in args]
